@@ -190,11 +190,12 @@ pub fn req_case(out: &mut Out, w: &mut Worker, rc: &mut ReqCases, prop: &str, te
 
 /// feed all collected case lines to the Lean driver and post-process its answers
 pub fn finish(out: &mut Out, rc: ReqCases) {
+    // `urlhelpers2` = `urlhelpers` without the archive bit (not public API)
     let driver = std::env::var("VERIF_DRIVER").unwrap_or_else(|_| "/verif/lean/.lake/build/bin/driver".into());
     let mut child = std::process::Command::new(&driver).stdin(std::process::Stdio::piped()).stdout(std::process::Stdio::piped()).spawn().expect("driver");
     {
         let mut stdin = child.stdin.take().unwrap();
-        let lines = rc.lines.clone();
+        let lines: Vec<String> = rc.lines.iter().map(|l| l.replacen("urlhelpers2\t", "urlhelpers\t", 1)).collect();
         std::thread::spawn(move || {
             for l in lines { let _ = writeln!(stdin, "{l}"); }
         });
@@ -205,7 +206,13 @@ pub fn finish(out: &mut Out, rc: ReqCases) {
     let mut model = Vec::new();
     for (i, l) in rc.lines.iter().enumerate() {
         let a = answers.get(i).copied().unwrap_or("missing");
-        model.push(post_process(a, &rc.envs[i]));
+        if l.starts_with("req\t") {
+            model.push(post_process(a, &rc.envs[i]));
+        } else if l.starts_with("urlhelpers2\t") {
+            model.push(a.rsplit_once(" archive=").map(|x| x.0.to_string()).unwrap_or(a.to_string()));
+        } else {
+            model.push(a.to_string());
+        }
         out.cases.push(l.clone());
     }
     out.model_out = Some(model);
@@ -395,6 +402,88 @@ pub fn run(out: &mut Out, tier: &str, seed: u64, prop: &str) {
             }
         }
     }
+    // ---- C18: where the URL ends, verbatim text, variable expansion --------------------------------
+    if prop == "C18" {
+        let alphabet = ['x', ';', '#', ' ', '\n'];
+        let max_len = if big { 5 } else { 4 };
+        let mut tails: Vec<String> = vec![String::new()];
+        let mut cur: Vec<String> = vec![String::new()];
+        for _ in 0..max_len {
+            let mut next = Vec::new();
+            for t in &cur { for a in alphabet { next.push(format!("{t}{a}")); } }
+            tails.extend(next.iter().cloned());
+            cur = next;
+        }
+        let contexts = ["", " ; os_name == 'a'", " # c", ";os_name=='a'", "\t;\tos_name=='a'  "];
+        for t in &tails {
+            for (ci, ctx) in contexts.iter().enumerate() {
+                if !big && ci >= 3 && t.len() > 3 { continue; }
+                let after_at = format!(" https://h.org/p{t}{ctx}");
+                let text = format!("n @{after_at}");
+                let ans = req_case(out, &mut w, &mut rc, prop, &text, &vars);
+                url_rule_oracle(out, &text, &after_at, &ans, &vars);
+            }
+        }
+        out.notes.push(format!("exhaustive: URL tails of length <= {max_len} over {:?} x {} following contexts", alphabet, contexts.len()));
+        // variable expansion
+        let urls = ["https://h.org/${VP_HOME_DIR}/a", "https://h.org/${VP_UNSET}/a", "https://h.org/${VP_EMPTY}a", "file://${PROJECT_ROOT}/a", "https://h.org/${vp_lower}", "https://h.org/${}",
+            "https://h.org/$VP_HOME_DIR", "https://h.org/${VP_HOME_DIR", "https://h.org/${VP_HOME_DIR}${VP_HOME_DIR}", "https://h.org/$${VP_HOME_DIR}}", "https://h.org/${VP_TOKEN_1}@x", "https://${VP_HOME_DIR}",
+            "https://h.org/a[1]@b{c}$d", "${VP_HOME_DIR}", "https://h.org/${VP HOME}", "https://h.org/${VP_HOME_DIR}/${VP_UNSET}/${VP_TOKEN_1}"];
+        let envsets: Vec<Vec<(String, String)>> = vec![
+            vec![],
+            default_vars(),
+            vec![("VP_HOME_DIR".into(), "h".into()), ("VP_TOKEN_1".into(), "t;k#n".into()), ("PROJECT_ROOT".into(), "/proj root".into())],
+            vec![("VP_HOME_DIR".into(), "${VP_TOKEN_1}".into()), ("VP_TOKEN_1".into(), "x y".into())],
+        ];
+        for u in urls {
+            for vs in &envsets {
+                let text = format!("n @ {u}");
+                let ans = req_case(out, &mut w, &mut rc, prop, &text, vs);
+                url_rule_oracle(out, &text, &format!(" {u}"), &ans, vs);
+                // expand_env_vars itself: implementation vs independent reading vs Lean model
+                apply_env(vs);
+                let got = pep508_rs::expand_env_vars(u).to_string();
+                let want = expand_spec(u, vs);
+                out.evaluations += 1;
+                if got != want {
+                    out.oracle_fail("C18", "expand_env_vars differs from `${NAME}` replacement for set variables (names of uppercase letters, digits, underscore)", serde_json::json!({"text": u, "env": env_field(vs), "got": got, "want": want}));
+                }
+                let cwd = std::env::current_dir().unwrap().to_string_lossy().to_string();
+                rc.lines.push(format!("expand\t{}\t{}\t{}", hex(u), env_field(vs), hex(&cwd)));
+                rc.envs.push(vs.clone());
+                out.impl_out.push(hex(&got));
+            }
+        }
+    }
+    // ---- C19: bare URLs, paths and archive names are never taken for package names ---------------------
+    if prop == "C19" {
+        let shapes = ["https://x.org/a-1.0.whl", "git+https://github.com/a/b.git", "file:///tmp/x", "http://h/p?q=1", "/abs/path", "./rel", "../rel/p.tar.gz", "rel/p", "C:\\x\\y", ".", "..",
+            "requests-2.26.0.tar.gz", "foo.whl", "x.zip", "a.tar.bz2", "a.tgz", "pkg-1.0.tar.xz", "A.TAR.GZ", "a.tar", "a.tbz", "a.tar.lzma", "dir/a.whl", "~/x", "\\\\server\\share", "foo.tar.gz.sig",
+            "${VP_HOME_DIR}/x", "a.tlz", "a.txz", "a.tar.lz", "b.b.zip", "n.gz", "tar.gz", "x.tar.gz2"];
+        let suffixes = ["", "[dev]", " ; os_name == 'a'", "[dev,test] ; python_version > '3'", " [x]", "  "];
+        for sh in shapes {
+            for suf in suffixes {
+                let text = format!("{sh}{suf}");
+                let ans = req_case(out, &mut w, &mut rc, prop, &text, &vars);
+                out.nontrivial(text.clone());
+                let is_shape = !matches!(sh, "foo.tar.gz.sig" | "n.gz" | "tar.gz" | "x.tar.gz2" | "A.TAR.GZ");
+                if is_shape {
+                    if ans.starts_with("ok ") {
+                        out.oracle_fail("C19", "a bare URL / path / archive name was accepted as a named requirement", serde_json::json!({"text": text, "answer": ans}));
+                    } else if !ans.starts_with("err unsupported") && !ans.starts_with("panic") {
+                        out.oracle_fail("C19", &format!("rejected, but not with the dedicated unsupported-requirement error kind: {ans}"), serde_json::json!({"text": text}));
+                    } else { out.stat("c19.unsupported"); }
+                }
+                // url helpers: implementation vs Lean model
+                out.evaluations += 1;
+                let sch = match pep508_rs::split_scheme(&text) { Some((a, b)) => format!("{}:{}", hex(a), hex(b)), None => "none".into() };
+                let ext = match pep508_rs::split_extras(&text) { Some((a, b)) => format!("{}:{}", hex(a), hex(b)), None => "none".into() };
+                rc.lines.push(format!("urlhelpers2\t{}", hex(&text)));
+                rc.envs.push(vars.clone());
+                out.impl_out.push(format!("scheme={sch} extras={ext}"));
+            }
+        }
+    }
     out.stat_n("worker.restarts", w.restarts);
     finish(out, rc);
     let n = out.cases.len();
@@ -404,6 +493,24 @@ pub fn run(out: &mut Out, tier: &str, seed: u64, prop: &str) {
     }
 }
 
+/// are two markers equivalent on final-release environments (used only inside the property's
+/// carve-out: the FALSE marker and deprecated key spellings)
+pub fn marker_equiv(a: &MarkerTree, b: &MarkerTree, seed: u64) -> bool {
+    if a == b { return true; }
+    let mut rng = Rng::new(seed);
+    let p = pools();
+    for _ in 0..200 {
+        let pfv = format!("{}.0.1", rng.pick(&["0", "2.7", "3", "3.7", "3.8", "3.8.5", "3.9", "3.10", "4"]));
+        let mut e = CEnv::default_env();
+        let iv = rel_of(p.versions[rng.below(p.versions.len())]);
+        e.vers = [iv, pfv.clone(), major_minor(&pfv)];
+        for i in 0..8 { e.strs[i] = format!("{}{}", p.strings[rng.below(p.strings.len())], if rng.chance(1, 3) { "!" } else { "" }); }
+        e.extras = p.extras.iter().filter(|x| ExtraName::from_str(x).is_ok() && rng.chance(1, 2)).map(|x| x.to_string()).collect();
+        if e.eval(a) != e.eval(b) { return false; }
+    }
+    true
+}
+
 /// C08: Display / serde round trip of an accepted requirement (in this process: no panics expected)
 fn round_trip(out: &mut Out, text: &str, vars: &[(String, String)]) {
     apply_env(vars);
@@ -411,13 +518,20 @@ fn round_trip(out: &mut Out, text: &str, vars: &[(String, String)]) {
     out.nontrivial(text.to_string());
     let shown = r.to_string();
     let input = serde_json::json!({"text": text, "rendered": shown});
+    // the property's carve-out: FALSE renders as `python_version < '0'`, deprecated keys render under the modern name
+    let is_false = r.marker.is_false();
+    let deprecated = ["os.name", "sys.platform", "platform.machine", "platform.python_implementation", "platform.version", "python_implementation"].iter().any(|k| text.contains(k));
+    let same = |x: &Requirement<VerbatimUrl>| -> bool {
+        x.name == r.name && x.extras == r.extras && x.version_or_url == r.version_or_url
+            && (x.marker == r.marker || ((is_false || deprecated) && marker_equiv(&x.marker, &r.marker, 7)))
+    };
+    if is_false || deprecated { out.stat("c08.carve_out_equivalence"); } else { out.stat("c08.strict_equality"); }
     match std::panic::catch_unwind(|| Requirement::<VerbatimUrl>::from_str(&shown)) {
         Ok(Ok(r2)) => {
-            let same_marker = r2.marker == r.marker;
-            if r2.name != r.name || r2.extras != r.extras || r2.version_or_url != r.version_or_url || !same_marker {
+            if !same(&r2) {
                 out.oracle_fail("C08", "to_string() parses back to a different requirement", input.clone());
             }
-            if r2.to_string() != shown {
+            if !is_false && r2.to_string() != shown {
                 out.oracle_fail("C08", "rendering the re-parsed requirement does not reproduce the text", input.clone());
             }
         }
@@ -425,8 +539,77 @@ fn round_trip(out: &mut Out, text: &str, vars: &[(String, String)]) {
         Err(_) => out.oracle_fail("C08", "panic while re-parsing", input.clone()),
     }
     match serde_json::to_string(&r).ok().and_then(|j| serde_json::from_str::<Requirement<VerbatimUrl>>(&j).ok()) {
-        Some(r3) => if r3 != r { out.oracle_fail("C08", "serde round trip returns a different requirement", input.clone()); },
+        Some(r3) => if !same(&r3) { out.oracle_fail("C08", "serde round trip returns a different requirement", input.clone()); },
         None => out.oracle_fail("C08", "serde round trip fails", input.clone()),
     }
     let _ = (PackageName::from_str("a"), ExtraName::from_str("a"), MarkerTree::TRUE);
+}
+
+/// independent reading of `${NAME}` expansion (C18)
+fn expand_spec(s: &str, vars: &[(String, String)]) -> String {
+    let b: Vec<char> = s.chars().collect();
+    let mut out = String::new();
+    let mut i = 0;
+    while i < b.len() {
+        if b[i] == '$' && i + 1 < b.len() && b[i + 1] == '{' {
+            let mut j = i + 2;
+            while j < b.len() && (b[j].is_ascii_uppercase() || b[j].is_ascii_digit() || b[j] == '_') { j += 1; }
+            if j > i + 2 && j < b.len() && b[j] == '}' {
+                let name: String = b[i + 2..j].iter().collect();
+                let val = vars.iter().find(|(k, _)| *k == name).map(|(_, v)| v.clone()).or_else(|| if name == "PROJECT_ROOT" { Some(std::env::current_dir().unwrap().to_string_lossy().to_string()) } else { None });
+                match val { Some(v) => out.push_str(&v), None => out.extend(&b[i..=j]) }
+                i = j + 1;
+                continue;
+            }
+        }
+        out.push(b[i]);
+        i += 1;
+    }
+    out
+}
+
+/// the URL-end rule of C18, read from the property statement (not from the code)
+fn url_rule_oracle(out: &mut Out, text: &str, after_at: &str, ans: &str, vars: &[(String, String)]) {
+    let chars: Vec<(usize, char)> = after_at.char_indices().collect();
+    let mut k = 0;
+    while k < chars.len() && chars[k].1.is_whitespace() { k += 1; }
+    let start = chars.get(k).map(|c| c.0).unwrap_or(after_at.len());
+    let mut end = after_at.len();
+    let mut ambiguous = false;
+    let mut i = k;
+    while i < chars.len() {
+        let (pos, c) = chars[i];
+        if c == '\r' || c == '\n' { end = pos; break; }
+        if c.is_whitespace() {
+            let mut j = i;
+            while j < chars.len() && chars[j].1.is_whitespace() { j += 1; }
+            if j == chars.len() || chars[j].1 == ';' || chars[j].1 == '#' { end = pos; break; }
+        }
+        if (c == ';' || c == '#') && chars.get(i + 1).map(|n| n.1.is_whitespace()).unwrap_or(false) { ambiguous = true; break; }
+        i += 1;
+    }
+    let input = serde_json::json!({"text": text, "env": env_field(vars), "answer": ans});
+    if ambiguous {
+        if ans.starts_with("ok ") {
+            out.oracle_fail("C18", "a `;` or `#` glued to the URL and followed by whitespace was accepted instead of rejected as ambiguous", input);
+        } else { out.stat("c18.ambiguous_rejected"); }
+        return;
+    }
+    let url = &after_at[start..end];
+    if let Some(rest) = ans.strip_prefix("ok ") {
+        let vu = rest.split(' ').find(|f| f.starts_with("vu=url:")).unwrap_or("");
+        let mut it = vu.trim_start_matches("vu=url:").split(':');
+        let (given, shown) = (unhex(it.next().unwrap_or("-")), unhex(it.next().unwrap_or("-")));
+        out.nontrivial(url.to_string());
+        if given != url {
+            out.oracle_fail("C18", &format!("the URL does not extend to the first whitespace followed by `;`, `#` or the end (given() = {:?}, expected {:?})", given, url), input.clone());
+        }
+        apply_env(vars);
+        let expanded = expand_spec(url, vars);
+        match url::Url::parse(&expanded) {
+            Ok(u) => if u.to_string() != shown { out.oracle_fail("C18", "the parsed URL is not the URL of the text after `${NAME}` expansion", input.clone()); },
+            Err(_) => out.oracle_fail("C18", "accepted although the expanded text is not a URL", input.clone()),
+        }
+        out.stat("c18.accepted");
+    } else { out.stat("c18.rejected"); }
 }
